@@ -1,5 +1,5 @@
 (* C18 — property theorems only. Statements are pinned by props/C18.json. *)
-From PV Require Import Lib.Base C18.Model C18.Proofs C18.Strings.
+From PV Require Import Lib.Base C18.Model C18.Proofs C18.Bech32 C18.Bech32Proofs C18.Strings C18.Bech32Addr.
 Open Scope Z_scope.
 
 (* varuint::write then varuint::read returns the number and leaves the cursor
@@ -80,19 +80,47 @@ Theorem hrp_matches_network : forall a net, 0 <= net < 16 ->
           else if net =? 1 then Ok (hrp_base a) else Err E_UNKNOWN_HRP.
 Proof. exact hrp_matches_network_proof. Qed.
 
-(* PARTIAL (bech32 is an oracle): full statement = the same without the
-   round-trip premise on the bech32 crate.  Given only that premise, to_bech32
-   uses the network's hrp, from_bech32 inverts it, and from_str (to_string a) = a,
-   for testnet/mainnet addresses. *)
-Theorem addr_bech32_roundtrip_partial :
+(* ---- bech32 (crate bech32 0.11.1 as pallas calls it), executable Gallina ---- *)
+(* 8->5 then 5->8 regrouping gives the bytes back, for every byte string *)
+Theorem bech32_regroup_roundtrip : forall bs, bytes_wf bs -> from5 (to5 bs) = bs.
+Proof. exact regroup_roundtrip. Qed.
+
+(* a freshly created checksum verifies: polymod is GF(2)-linear *)
+Theorem bech32_polymod_checksum : forall h fes, Forall fe (hrp_expand h ++ fes) ->
+  polymod (hrp_expand h ++ fes ++ create_checksum h fes) = 1.
+Proof. exact polymod_checksum. Qed.
+
+(* decode . encode = id for every valid lower-case hrp and every byte string
+   (whenever encode succeeds, i.e. the string has at most 1023 characters) *)
+Theorem bech32_roundtrip : forall h d s, hrp_valid h -> bytes_wf d ->
+  bech32_encode h d = Some s -> bech32_decode s = Some (h, d).
+Proof. exact bech32_roundtrip_proof. Qed.
+Theorem bech32_encode_succeeds : forall h d, blen h + 1 + (8 * blen d + 4) / 5 + 6 <= 1023 ->
+  exists s, bech32_encode h d = Some s.
+Proof. exact bech32_encode_some. Qed.
+
+(* generic form kept: any codec with the round-trip premise (valid lower-case hrp,
+   <= 64 data bytes) gives the string-level round trips *)
+Theorem addr_bech32_roundtrip_generic :
   forall (enc : list Z -> list Z -> list Z) (dec : list Z -> option (list Z * list Z))
          (b58 : list Z -> outcome address) (p8 : Z -> list Z -> outcome address),
-  (forall h d, bytes_wf d -> dec (enc h d) = Some (h, d)) ->
+  (forall h d, hrp_valid h -> bytes_wf d -> blen d <= 64 -> dec (enc h d) = Some (h, d)) ->
   forall a net, 0 <= net <= 1 -> addr_wf a -> addr_network a = Some (network_from net) ->
   to_bech32 enc a = Ok (enc (hrp_base a ++ (if net =? 0 then s_test else [])) (to_vec a)) /\
   from_bech32 dec p8 (enc (hrp_base a ++ (if net =? 0 then s_test else [])) (to_vec a)) = Ok a /\
   from_str dec b58 p8 (to_string enc a) = Ok a.
 Proof. exact addr_bech32_roundtrip_sec. Qed.
+
+(* CLOSED: with the Gallina bech32, for testnet / mainnet addresses: to_bech32 uses
+   the network's hrp, from_bech32 inverts it, and from_str (to_string a) = a
+   (from_str tries bech32 first, so the base58 and Byron arms are arbitrary) *)
+Theorem addr_bech32_roundtrip :
+  forall (b58 : list Z -> outcome address) (p8 : Z -> list Z -> outcome address) a net,
+  0 <= net <= 1 -> addr_wf a -> addr_network a = Some (network_from net) ->
+  to_bech32 enc_total a = Ok (enc_total (hrp_base a ++ (if net =? 0 then s_test else [])) (to_vec a)) /\
+  from_bech32 bech32_decode p8 (enc_total (hrp_base a ++ (if net =? 0 then s_test else [])) (to_vec a)) = Ok a /\
+  from_str bech32_decode b58 p8 (to_string enc_total a) = Ok a.
+Proof. exact addr_bech32_closed. Qed.
 
 (* ---- non-vacuity ---- *)
 Definition ex_hash (k : Z) : list Z := map (fun i => (i * 7 + k) mod 256) (zrangeZ 0 28).
@@ -109,13 +137,13 @@ Proof.
   repeat split; try (vm_compute; reflexivity); try (vm_compute; intros; discriminate).
   - apply bytes_wfb_spec. vm_compute. reflexivity.
 Qed.
-(* the bech32 premise is satisfiable (a length-prefixed toy code) *)
-Example bech32_premise_satisfiable :
-  let enc := fun (h d : list Z) => len h :: h ++ d in
-  let dec := fun (s : list Z) => match s with
-             | n :: r => Some (firstn (Z.to_nat n) r, skipn (Z.to_nat n) r) | [] => None end in
-  forall h d, bytes_wf d -> dec (enc h d) = Some (h, d).
+(* BIP-173 test vectors "a12uel5l" and "A12UEL5L"; a mixed-case one is rejected *)
+Example bech32_vectors :
+  bech32_encode [97] [] = Some [97;49;50;117;101;108;53;108] /\
+  bech32_decode [65;49;50;85;69;76;53;76] = Some ([65], []) /\
+  bech32_decode [97;49;50;85;69;76;53;76] = None /\
+  hrp_valid (s_addr ++ s_test).
 Proof.
-  intros enc dec h d _. unfold enc, dec, len. rewrite Nat2Z.id.
-  rewrite firstn_len_app, skipn_len_app. reflexivity.
+  repeat split; try (vm_compute; reflexivity); try discriminate; try (vm_compute; discriminate).
+  repeat constructor; vm_compute; try discriminate; reflexivity.
 Qed.
